@@ -8,7 +8,9 @@ import time
 from .check import *  # noqa
 from . import plan as PLAN
 
-SUPPORT_KINDS = ("inv-init", "inv-step", "pre", "assert")
+# bounds / range / div obligations are assumed after they are checked (no cascades): when one fails, everything discharged after it in that function
+# rests on a false assumption, so they support every property the function serves
+SUPPORT_KINDS = ("inv-init", "inv-step", "pre", "assert", "bounds", "range", "div")
 
 
 def load_known():
